@@ -7,7 +7,7 @@ transaction modifies is still there, with the same rows and possibly more deleti
 transaction listed it as updated.
 -/
 namespace LanceModel.C18
-open LanceModel.Table LanceModel.C17 List
+open LanceModel.Table LanceModel.C17Base List
 
 /-- fragment `g` is fragment `f` with possibly more deletions -/
 def Grown (f g : Frag) : Prop := g.id = f.id ∧ ∃ B, g.rows = markAt B f.id 0 f.rows
